@@ -300,6 +300,9 @@ pub struct JobLite {
     pub max_fails: Option<u32>,
     pub tasks: Vec<(u32, TaskStateLite)>,
     pub completed: bool,
+    /// what the real `client::status::job_status` derives from the job's info ("" = not taken)
+    #[serde(default)]
+    pub status: String,
 }
 
 #[derive(Serialize, Deserialize, Clone, Debug, PartialEq, Eq)]
